@@ -7,6 +7,22 @@ NOTES = ("exit 0 = every obligation generated from /repo's working tree discharg
          "timeout) - never an alarm. See DESIGN.md.")
 
 CHECKS = {
+    "C08": {
+        "text": "Proof, unbounded (Verus on the verbatim ClientVisibility impl): representation invariant + whole-view postconditions of every operation against the two oracles "
+                "cur (latest setting) and held (what the client holds): is_visible/state report the latest setting, an unheld entity is never classified plain Visible, "
+                "drain_lost yields exactly held-and-hidden, update commits, remove_despawned keeps a pending loss, other entities untouched; both policies, all call sequences by induction.",
+        "design_ref": "DESIGN.md §4 U6, §5 C08",
+        "note": "Assumed: hashbrown map/set/Entry semantics (shims). Not covered: that collect_despawns/collect_removals/collect_changes (Bevy systems) honour the classification for every byte they emit.",
+        "technique": "contract-based deductive verification: Verus requires/ensures/invariants woven onto verbatim-extracted functions; native bounded search only to exhibit a failing input",
+    },
+    "C06": {
+        "text": "Proof (decoders only) on the real code and real dependencies: entity decoding is total over all byte strings; BufFlavor::pop makes progress on every non-empty buffer; "
+                "acknowledgement index decode/advance; trigger target-list decoding neither panics nor reserves more than the message length (complete for the length-prefix attack, bounded to 4-byte messages otherwise).",
+        "design_ref": "DESIGN.md §4 U4, U9, U10, §5 C06",
+        "note": "Decoders only. Not covered: the Bevy systems that call them (receive_acks' lookup of the sender's ClientTicks, ClientEvent::receive_typed, user event types' own Deserialize) and 'keeps serving every client afterwards'. "
+                "Bounded part (trigger_deserialize over all messages <= 4 bytes) is listed as bounded in the evidence and not counted as proved.",
+        "technique": "contract-based deductive verification: Kani/CBMC contract harnesses on the real crate (complete where loop-free / fully unwound; one bounded stand-in, labelled)",
+    },
     "C15": {
         "text": "Proof on the real code with the real postcard/bytes/bevy_ecs: (a) totality of deserialize_entity over ALL byte strings (complete: the decoder reads at most 15 bytes), "
                 "(b) round trip and exact consumption for every valid (index, generation) with a trailing byte, (c) BufFlavor/ExtendMutFlavor cursor contracts.",
@@ -33,9 +49,7 @@ NOT_APPLICABLE = {
     "C03": PLANNED,
     "C04": "Every mechanism is out of reach: system ordering (plugin wiring), receive_typed (unsafe PtrMut casts over generics), SerializedMessage::get_bytes (Kani out of memory, &mut sub-slice borrows for Verus) and ClientEventQueue (BTreeMap: Kani timeout; capturing closure for Verus).",
     "C05": "Recipient selection iterates a Bevy Query with closure filters; exactly-once is a property of Bevy's double-buffered Events<E> across frames; typed plumbing is unsafe pointer casts over generics.",
-    "C06": PLANNED,
     "C07": "Holds by absence of components on the client entity and by query filters in send_replication/send_all; there is no function whose contract states it.",
-    "C08": PLANNED,
     "C09": "Mechanisms are Bevy systems gated by run conditions and message purges using retain closures / generic Into (not extractable for Verus, Kani timeout). Reachable container resets are proved under C03/C12 but do not amount to the property.",
     "C10": PLANNED,
     "C11": PLANNED,
